@@ -713,3 +713,254 @@ Proof.
 Qed.
 
 End Seq.
+
+(* ------------------------------------------------------------------------------------------ *)
+(* Sequential histories *)
+
+Lemma run_req_eq o q w : run_req o q w = run_prog env_events api_bodyful o (prog_of q) w.
+Proof. reflexivity. Qed.
+
+Lemma run_seq_cons q o r w :
+  run_seq ((q, o) :: r) w =
+  (fst (run_seq r (fst (fst (run_req o q w)))),
+   snd (run_req o q w) ++ snd (run_seq r (fst (fst (run_req o q w))))).
+Proof.
+  cbn [run_seq]. destruct (run_req o q w) as [[w1 res] t1]. cbn [fst snd].
+  destruct (run_seq r w1) as [w2 t2]. reflexivity.
+Qed.
+
+(* a history is safe when the requests made by a holder of the *Environment (watcher, auto-stop
+   timer, bare TryTransition) only happen while the environment is listed; requests that go
+   through the manager's map (every API request) are always safe *)
+Fixpoint seq_safe (l : list (req * oracle)) (w : world) : Prop :=
+  match l with
+  | [] => True
+  | (q, o) :: r => (handle_req q = true -> w_listed w = true) /\ seq_safe r (fst (fst (run_req o q w)))
+  end.
+
+Definition api_req (q : req) : Prop := handle_req q = false.
+
+Lemma api_seq_safe l : Forall (fun qo => api_req (fst qo)) l -> forall w, seq_safe l w.
+Proof.
+  induction 1 as [|[q o] r Hq Hr IH]; intro w; cbn [seq_safe]; [exact I|].
+  split; [|apply IH]. cbn in Hq. unfold api_req in Hq. intro H. congruence.
+Qed.
+
+Lemma api_req_ok q : api_req q -> req_ok q.
+Proof. destruct q; cbn; intro H; try exact I. discriminate. Qed.
+
+Lemma run_seq_graph l :
+  Forall (fun qo => req_ok (fst qo)) l -> forall w, J w -> seq_safe l w ->
+  edges_ok (trace_edges (w_st w) (snd (run_seq l w))) = true /\
+  trace_final (w_st w) (snd (run_seq l w)) = w_st (fst (run_seq l w)) /\
+  J (fst (run_seq l w)).
+Proof.
+  induction 1 as [|[q o] r Hq Hr IH]; intros w HJ Hs.
+  - cbn. repeat split; try assumption.
+  - rewrite run_seq_cons. cbn [fst snd]. cbn [seq_safe] in Hs. destruct Hs as [Hh Hs].
+    cbn [fst] in Hq.
+    pose proof (prog_of_safe o q w Hq HJ Hh) as Hsafe.
+    destruct (run_prog_graph o (prog_of q) (prog_of_ok q Hq) w HJ Hsafe) as [E1 [F1 [J1 _]]].
+    rewrite <- run_req_eq in E1, F1, J1.
+    destruct (IH _ J1 Hs) as [E2 [F2 J2]].
+    rewrite trace_edges_app, trace_final_app, F1.
+    split; [unfold edges_ok in *; rewrite forallb_app, E1, E2; reflexivity|].
+    split; assumption.
+Qed.
+
+(* API requests on an environment that is not listed do nothing at all *)
+Lemma api_unlisted_inert o q w :
+  api_req q -> w_listed w = false ->
+  fst (fst (run_req o q w)) = w /\ snd (run_req o q w) = [].
+Proof.
+  intros Hq Hl. destruct q; try discriminate Hq; unfold run_req; cbn [prog_of].
+  - unfold p_control. cbn. rewrite Hl. cbn. split; reflexivity.
+  - unfold p_destroy. cbn. rewrite Hl. cbn. split; reflexivity.
+  - unfold p_teardown. cbn. rewrite Hl. cbn. split; reflexivity.
+  - unfold p_odc. cbn. rewrite Hl. cbn. split; reflexivity.
+  - unfold p_stoprun. cbn. rewrite Hl. cbn. split; reflexivity.
+Qed.
+
+Lemma run_seq_unlisted l :
+  Forall (fun qo => api_req (fst qo)) l -> forall w, w_listed w = false ->
+  run_seq l w = (w, []).
+Proof.
+  induction 1 as [|[q o] r Hq Hr IH]; intros w Hl; [reflexivity|].
+  rewrite run_seq_cons. cbn [fst] in Hq.
+  destruct (api_unlisted_inert o q w Hq Hl) as [Hw Ht]. rewrite Hw, Ht, (IH w Hl). reflexivity.
+Qed.
+
+(* ------------------------------------------------------------------------------------------ *)
+(* One ControlEnvironment request on a listed environment *)
+
+Lemma world_eta w : mkWorld (w_st w) (w_listed w) = w.
+Proof. destruct w; reflexivity. Qed.
+
+Lemma fsm_section_unlists o st ev : sec_unlists (fsm_section env_events api_bodyful o st ev) = false.
+Proof.
+  unfold sec_unlists.
+  destruct (sec_commit (fsm_section env_events api_bodyful o st ev)) as [[d u]|] eqn:Hc; [|reflexivity].
+  unfold fsm_section in Hc. apply fsm_core_commit in Hc. tauto.
+Qed.
+
+Lemma exec_try o ev w :
+  exec_act env_events api_bodyful o (ATry ev) w =
+  (mkWorld (sec_final (w_st w) (fsm_section env_events api_bodyful o (w_st w) ev)) (w_listed w),
+   RB (sec_err (fsm_section env_events api_bodyful o (w_st w) ev)),
+   sec_trace (fsm_section env_events api_bodyful o (w_st w) ev)).
+Proof.
+  cbn [exec_act act_section]. rewrite fsm_section_unlists. cbn [negb]. rewrite andb_true_r. reflexivity.
+Qed.
+
+(* the GO_ERROR fallback followed by the forced state always ends in ERROR, whatever the state *)
+Definition fallback_trace (o : oracle) (st : estate) : list titem :=
+  let sec := fsm_section env_events api_bodyful o st eGO_ERROR in
+  sec_trace sec ++ (if sec_err sec then force_items (sec_final st sec) sERROR else []).
+
+Lemma goerror_final o st :
+  sec_err (fsm_section env_events api_bodyful o st eGO_ERROR) = false ->
+  sec_final st (fsm_section env_events api_bodyful o st eGO_ERROR) = sERROR.
+Proof.
+  intro H. unfold fsm_section in *. apply fsm_core_success in H. destruct H as [d [Hl Hc]].
+  unfold sec_final. rewrite Hc. rewrite goerror_table in Hl. destruct (live st); congruence.
+Qed.
+
+(* what ControlEnvironment does once the environment was found and the operation is known *)
+Lemma control_spec o ot ev w :
+  w_listed w = true -> make_transition ot = Some ev ->
+  let sec := fsm_section env_events api_bodyful o (w_st w) ev in
+  let st1 := sec_final (w_st w) sec in
+  run_req o (QControl ot) w =
+  if sec_err sec
+  then (mkWorld sERROR true,
+        (if sec_err (fsm_section env_events api_bodyful o st1 eGO_ERROR) then 3 else 0, Some sERROR),
+        sec_trace sec ++ fallback_trace o st1)
+  else (mkWorld st1 true, (0, Some st1), sec_trace sec).
+Proof.
+  intros Hl Hm. cbv zeta. unfold run_req. cbn [prog_of]. unfold p_control.
+  cbn [run_prog]. cbn [exec_act]. rewrite Hl. cbn [res_b negb]. rewrite Hm.
+  cbn [run_prog]. rewrite exec_try. cbn [res_b].
+  destruct (sec_err (fsm_section env_events api_bodyful o (w_st w) ev)) eqn:E1; cbn [negb].
+  - cbn [run_prog]. rewrite exec_try. cbn [res_b w_st w_listed].
+    unfold fallback_trace.
+    destruct (sec_err (fsm_section env_events api_bodyful o
+               (sec_final (w_st w) (fsm_section env_events api_bodyful o (w_st w) ev)) eGO_ERROR)) eqn:E2; cbn [negb].
+    + unfold reply. cbn [run_prog exec_act w_st w_listed res_s]. rewrite !app_nil_r, Hl. reflexivity.
+    + unfold reply. cbn [run_prog exec_act w_st w_listed res_s]. rewrite (goerror_final _ _ E2).
+      rewrite !app_nil_r, Hl. reflexivity.
+  - unfold reply. cbn [run_prog exec_act w_st w_listed res_s]. rewrite !app_nil_r, Hl. reflexivity.
+Qed.
+
+Lemma own_item_event ev x : own_item ev x = true -> item_event x = Some ev.
+Proof.
+  destruct x as [m|e|s]; cbn; try discriminate.
+  - destruct m; try discriminate; intro H; apply eevent_eqb_eq in H; subst; reflexivity.
+  - intro H; apply eevent_eqb_eq in H; subst; reflexivity.
+Qed.
+
+Lemma fsm_core_no_body tbl bf st ev oc e :
+  bf ev = false -> ~ In (Body e) (sec_trace (fsm_core tbl bf st ev oc)).
+Proof.
+  intro Hb. unfold fsm_core, sec_trace. rewrite Hb, andb_false_r.
+  destruct (lookup_dst tbl ev st) as [dst|]; [|cbn; tauto].
+  destruct (f_before oc); [cbn; intros [H|[]]; discriminate|].
+  destruct (estate_eqb st dst); [cbn; intros [H|[H|[]]]; discriminate|].
+  destruct (f_leave oc); [cbn; intros [H|[H|[]]]; discriminate|].
+  cbn. intro H. repeat (destruct H as [H|H]; [discriminate|]). destruct H.
+Qed.
+
+Lemma force_items_setst st s x : In x (force_items st s) -> x = SetSt s.
+Proof. unfold force_items. destruct (estate_eqb st s); cbn; [tauto|]. intros [H|[]]. congruence. Qed.
+
+(* the fallback runs GO_ERROR's hooks only and never sends a task command *)
+Lemma fallback_items o st x :
+  In x (fallback_trace o st) ->
+  (forall e, x <> Body e) /\ (forall e, item_event x = Some e -> e = eGO_ERROR).
+Proof.
+  unfold fallback_trace. intro H. apply in_app_or in H. destruct H as [H|H].
+  - split.
+    + intros e E. subst. unfold fsm_section in H. revert H. apply fsm_core_no_body. reflexivity.
+    + intros e E. unfold fsm_section in H. eapply fsm_core_items; eassumption.
+  - destruct (sec_err (fsm_section env_events api_bodyful o st eGO_ERROR)); [|destruct H].
+    apply force_items_setst in H. subst. split; intros e E; discriminate.
+Qed.
+
+(* "not legal in the current state", as documented, is "not enabled in the event table" *)
+Lemma illegal_is_disabled ot ev st :
+  make_transition ot = Some ev -> (doc_op ot st = None <-> can env_events st ev = false).
+Proof.
+  intro Hm. rewrite make_transition_documented in Hm.
+  unfold can. rewrite (table_is_documented_ops ot ev st Hm).
+  destruct (doc_op ot st); split; intro H; congruence.
+Qed.
+
+Lemma control_illegal_inert o ot ev w :
+  w_listed w = true -> make_transition ot = Some ev -> doc_op ot (w_st w) = None ->
+  (forall x, In x (snd (run_req o (QControl ot) w)) -> own_item ev x = false) /\
+  (forall e, ~ In (Body e) (snd (run_req o (QControl ot) w))) /\
+  fst (fst (run_req o (QControl ot) w)) = mkWorld sERROR true /\
+  snd (snd (fst (run_req o (QControl ot) w))) = Some sERROR /\
+  (fst (snd (fst (run_req o (QControl ot) w))) = 0 \/ fst (snd (fst (run_req o (QControl ot) w))) = 3).
+Proof.
+  intros Hl Hm Hd. apply (illegal_is_disabled ot ev (w_st w) Hm) in Hd.
+  destruct (make_transition_names ot ev Hm) as [_ Hne].
+  assert (Hsec : fsm_section env_events api_bodyful o (w_st w) ev = mkSec [] None [] true)
+    by (unfold fsm_section; apply fsm_core_disabled; exact Hd).
+  rewrite (control_spec o ot ev w Hl Hm). rewrite Hsec.
+  cbn [sec_err sec_final sec_trace sec_pre sec_commit sec_post app fst snd].
+  split; [|split; [|split; [|split]]].
+  - intros x Hx. destruct (own_item ev x) eqn:E; [|reflexivity].
+    apply own_item_event in E. destruct (fallback_items o (w_st w) x Hx) as [_ H2].
+    specialize (H2 _ E). contradiction.
+  - intros e Hx. destruct (fallback_items o (w_st w) _ Hx) as [H1 _]. apply (H1 e). reflexivity.
+  - reflexivity.
+  - reflexivity.
+  - destruct (sec_err (fsm_section env_events api_bodyful o (w_st w) eGO_ERROR)); [right|left]; reflexivity.
+Qed.
+
+(* a first TryTransition that returns an error: the environment ends in ERROR, which is also the
+   state reported in the reply *)
+Lemma control_failed_is_error o ot ev w :
+  w_listed w = true -> make_transition ot = Some ev ->
+  sec_err (fsm_section env_events api_bodyful o (w_st w) ev) = true ->
+  fst (fst (run_req o (QControl ot) w)) = mkWorld sERROR true /\
+  snd (snd (fst (run_req o (QControl ot) w))) = Some sERROR /\
+  (fst (snd (fst (run_req o (QControl ot) w))) = 0 \/ fst (snd (fst (run_req o (QControl ot) w))) = 3).
+Proof.
+  intros Hl Hm He. rewrite (control_spec o ot ev w Hl Hm). rewrite He. cbn [fst snd].
+  split; [reflexivity|]. split; [reflexivity|].
+  match goal with |- context [if ?b then 3 else 0] => destruct b end; [right|left]; reflexivity.
+Qed.
+
+(* a first TryTransition that returns no error: the documented destination, reported as such *)
+Lemma control_success_documented o ot ev w :
+  w_listed w = true -> make_transition ot = Some ev ->
+  sec_err (fsm_section env_events api_bodyful o (w_st w) ev) = false ->
+  exists d, doc_op ot (w_st w) = Some d /\
+            fst (run_req o (QControl ot) w) = (mkWorld d true, (0, Some d)).
+Proof.
+  intros Hl Hm He. rewrite (control_spec o ot ev w Hl Hm). rewrite He. cbn [fst snd].
+  unfold fsm_section in *. apply fsm_core_success in He. destruct He as [d [Hlk Hc]].
+  exists d. split.
+  - rewrite make_transition_documented in Hm. rewrite <- (table_is_documented_ops ot ev _ Hm). exact Hlk.
+  - unfold sec_final. rewrite Hc. reflexivity.
+Qed.
+
+(* operations that MakeTransition refuses, and requests for an environment that is not listed,
+   change nothing *)
+Lemma control_refused o ot w :
+  w_listed w = false \/ make_transition ot = None ->
+  fst (fst (run_req o (QControl ot) w)) = w /\ snd (run_req o (QControl ot) w) = [] /\
+  (fst (snd (fst (run_req o (QControl ot) w))) = 1 \/ fst (snd (fst (run_req o (QControl ot) w))) = 2).
+Proof.
+  intro H. unfold run_req. cbn [prog_of]. unfold p_control. cbn [run_prog exec_act res_b].
+  destruct (w_listed w) eqn:Hl; cbn [negb].
+  - destruct H as [H|H]; [discriminate|]. rewrite H. cbn. tauto.
+  - cbn. tauto.
+Qed.
+
+(* ------------------------------------------------------------------------------------------ *)
+(* DONE is terminal for histories of API requests *)
+Lemma api_done_terminal l w :
+  Forall (fun qo => api_req (fst qo)) l -> J w -> w_st w = sDONE -> run_seq l w = (w, []).
+Proof. intros Hl HJ Hd. apply run_seq_unlisted; [exact Hl|]. apply HJ, Hd. Qed.
